@@ -242,6 +242,9 @@ func callStringMethod(i *interpreter, itf iface, name string) (s string, ok bool
 	if ss, isSym := r.(symstr); isSym {
 		return symstrDebug(ss), true
 	}
+	if _, isOp := r.(opaqueStr); isOp {
+		return "‹opaque text›", true
+	}
 	return "", false
 }
 
@@ -259,6 +262,9 @@ func (c *fmtCtx) render(t types.Type, v value, verb rune, top bool) string {
 							return r
 						case symstr:
 							return c.sentinel(r)
+						case opaqueStr:
+							c.opaque = true
+							return "‹opaque›"
 						}
 					}
 				}
@@ -274,6 +280,9 @@ func (c *fmtCtx) render(t types.Type, v value, verb rune, top bool) string {
 		return v
 	case symstr:
 		return c.sentinel(v)
+	case opaqueStr:
+		c.opaque = true
+		return "‹opaque›"
 	case sym:
 		c.opaque = true
 		return "‹sym›"
@@ -411,6 +420,9 @@ func (c *fmtCtx) hostArg(a value) interface{} {
 		return v
 	case symstr:
 		return c.sentinel(v)
+	case opaqueStr:
+		c.opaque = true
+		return "‹opaque›"
 	case sym:
 		c.opaque = true
 		return "‹sym›"
@@ -421,6 +433,9 @@ func (c *fmtCtx) hostArg(a value) interface{} {
 }
 
 func (c *fmtCtx) finish(out string) value {
+	if c.opaque {
+		return opaqueStr{"formatted symbolic value"}
+	}
 	if len(c.sents) == 0 {
 		return out
 	}
@@ -712,7 +727,7 @@ func ext۰time۰ParseDuration(fr *frame, args []value) value {
 func ext۰time۰Duration۰String(fr *frame, args []value) value {
 	if _, ok := args[0].(sym); ok {
 		fr.i.w.stub("time.Duration.String on a symbolic duration: opaque text")
-		return "‹duration›"
+		return opaqueStr{"time.Duration.String of a symbolic duration"}
 	}
 	return time.Duration(args[0].(int64)).String()
 }
@@ -920,7 +935,7 @@ func ext۰strconv۰Atoi(fr *frame, args []value) value {
 func ext۰strconv۰Itoa(fr *frame, args []value) value {
 	if _, ok := args[0].(sym); ok {
 		fr.i.w.stub("strconv.Itoa on a symbolic int: opaque text")
-		return "‹sym›"
+		return opaqueStr{"strconv.Itoa of a symbolic number"}
 	}
 	return strconv.Itoa(args[0].(int))
 }
@@ -932,7 +947,7 @@ func ext۰strconv۰Quote(fr *frame, args []value) value {
 func ext۰strconv۰FormatInt(fr *frame, args []value) value {
 	if !allConcrete(args...) {
 		fr.i.w.stub("strconv.FormatInt on a symbolic int: opaque text")
-		return "‹sym›"
+		return opaqueStr{"strconv.FormatInt of a symbolic number"}
 	}
 	return strconv.FormatInt(args[0].(int64), int(asInt64(args[1])))
 }
@@ -940,7 +955,7 @@ func ext۰strconv۰FormatInt(fr *frame, args []value) value {
 func ext۰strconv۰FormatUint(fr *frame, args []value) value {
 	if !allConcrete(args...) {
 		fr.i.w.stub("strconv.FormatUint on a symbolic int: opaque text")
-		return "‹sym›"
+		return opaqueStr{"strconv.FormatUint of a symbolic number"}
 	}
 	return strconv.FormatUint(args[0].(uint64), int(asInt64(args[1])))
 }
@@ -948,7 +963,7 @@ func ext۰strconv۰FormatUint(fr *frame, args []value) value {
 func ext۰strconv۰FormatFloat(fr *frame, args []value) value {
 	if !allConcrete(args...) {
 		fr.i.w.stub("strconv.FormatFloat on a symbolic float: opaque text")
-		return "‹sym›"
+		return opaqueStr{"strconv.FormatFloat of a symbolic number"}
 	}
 	return strconv.FormatFloat(args[0].(float64), args[1].(byte), int(asInt64(args[2])), int(asInt64(args[3])))
 }
